@@ -172,13 +172,6 @@ fn sub_types(input: &[u8], st: &mut Stats) -> R {
             if fs(&en.name) != Some(en.value) {
                 return Err(Fail::new("name-parses-back", e.name.to_string(), format!("{}: {} parses to {:?}", e.name, en.name, fs(&en.name))));
             }
-            // unknown names are rejected
-            for bad in [format!("{}x", en.name), en.name.to_lowercase() + "_", format!(" {}", en.name)] {
-                let declared_name = ge.values.iter().any(|v| v.name == bad) || ge.aliases.iter().any(|a| a.0 == bad);
-                if !declared_name && fs(&bad).is_some() {
-                    return Err(Fail::new("unknown-name-accepted", e.name.to_string(), format!("{}: undeclared name {:?} parses", e.name, bad)));
-                }
-            }
             st.evaluations += 1;
         }
         for (alias, target) in &ge.aliases {
@@ -196,9 +189,7 @@ fn sub_types(input: &[u8], st: &mut Stats) -> R {
                 return Err(Fail::new("fromstr-table", format!("{}::{}", e.name, s), format!("{}: {:?} parses to {:?}, snapshot says {}", e.name, s, fs(s), target)));
             }
         }
-        if fs("").is_some() || fs("NoSuchEnumerant").is_some() {
-            return Err(Fail::new("unknown-name-accepted", e.name.to_string(), "empty / unknown name parses".to_string()));
-        }
+        // (what strings other than declared names and aliases parse to is not stated by the property: not checked)
     }
     st.evaluations -= 1;
     st.set_insert("types", e.name);
